@@ -56,7 +56,7 @@ fn count_kind(e: &Value, f: &dyn Fn(&Value) -> bool) -> usize {
 pub fn budget(word_len: usize, rule_len: usize, backtrackers: usize) -> u64 {
     let w = (word_len + 2) as u64;
     let e = backtrackers.min(3) as u32;
-    (400 * w * w.pow(e) * (rule_len as u64 + 2)).min(3_000_000)
+    (400 * w * w.pow(e) * (rule_len as u64 + 2)).min(20_000)
 }
 
 pub struct Outcome { pub out: &'static str, pub detail: String, pub site: i64, pub steps: Vec<v::Step>, pub events: Vec<Event>, pub nticks: u64 }
@@ -80,10 +80,13 @@ pub fn run_rules(texts: &[String], word: &v::Word, budget: u64, ticks: bool) -> 
 }
 
 fn ticks_json(events: &[Event], cap: usize) -> Vec<Value> {
+    // [application index, site, syllable, segment, fingerprint, inner]; site 0 marks the start of a sub-rule application
     let mut out = Vec::new();
+    let mut app = 0u64;
     for e in events {
         if let Event::Tick { site, syll, seg, fp, inner } = e {
-            if *site <= 2 { out.push(json!([site, syll, seg, (fp % 1_000_000_007) as i64, inner])); if out.len() >= cap { break; } }
+            if *site == 0 { app += 1; continue; }
+            if *site <= 2 { out.push(json!([app, site, syll, seg, (fp % 1_000_000_007) as i64, inner])); if out.len() >= cap { break; } }
         }
     }
     out
@@ -241,6 +244,7 @@ pub fn record(prop: &str, rules_file: &str, out: &str, nwords: usize) {
                         Err(p) => if let Some(bx) = p.downcast_ref::<v::BudgetExhausted>() { ("budget", format!("loop site {}", bx.site), bx.site as i64) } else { ("panic", panic_msg(p), 0) },
                     };
                     sum.vectors += 1; sum.count(outk, 1); sum.count(kind, 1);
+                    if outk != "budget" { let m = sum.extra.get("max_ticks_of_a_returning_call").and_then(|x| x.as_u64()).unwrap_or(0); if rec.ticks > m { sum.extra.insert("max_ticks_of_a_returning_call".into(), json!(rec.ticks)); } }
                     if outk == "ok" { sum.nontrivial += 1; }
                     let ticks = ticks_json(&rec.events, 300);
                     // the tracer must return too
